@@ -180,16 +180,6 @@ pub enum Proto {
     Icmp,
     Tcp,
 }
-impl Proto {
-    pub fn name(self) -> &'static str {
-        match self {
-            Proto::Udp => "udp",
-            Proto::Icmp => "icmp",
-            Proto::Tcp => "tcp",
-        }
-    }
-}
-
 #[derive(Clone, Debug, PartialEq, Eq)]
 pub struct WorldCfg {
     pub med: Med,
@@ -478,10 +468,20 @@ impl World {
             meta.local_address = Some(IpAddress::Ipv6(src));
             let _ = s.send_slice(&[0x77], meta);
         }
-        self.settle(40);
-        let n = if from_s { &mut self.r } else { &mut self.s };
-        let h = n.warm;
-        !World::udp_drain(n, h).is_empty()
+        // A neighbor advertisement can itself be dropped while ITS destination is being resolved;
+        // the solicitation is repeated after the 1 s discovery silent time: give it 3 rounds.
+        for attempt in 0..3 {
+            self.settle(40);
+            let n = if from_s { &mut self.r } else { &mut self.s };
+            let h = n.warm;
+            if !World::udp_drain(n, h).is_empty() {
+                return true;
+            }
+            if attempt < 2 {
+                self.now += 1_050_000;
+            }
+        }
+        false
     }
     /// drop whatever is still queued on a warm-up socket (unresolvable destination)
     pub fn warm_reset(&mut self, on_s: bool) {
